@@ -25,7 +25,7 @@ CONSTANTS Menu,        \* set of item ids this configuration may use
 NoRat  == <<0, 0>>
 NoName == "NONE"
 BaseTypes == {"A", "B", "M", "D"}
-BaseUnits == {"a", "b", "p", "q", "d"}
+BaseUnits == {"a", "b", "p", "q", "d", "mpx"}
 ZeroVec == [u \in BaseUnits |-> 0]
 ZeroDim == [t \in BaseTypes |-> 0]
 UnitVec(s) == [u \in BaseUnits |-> IF u = s THEN 1 ELSE 0]
@@ -72,6 +72,8 @@ AllItems == {
   TDer("tBi", "Bi", << <<"B", -1>> >>, "bi"),
   TDer("tMpA", "MpA", << <<"M", 1>>, <<"A", -1>> >>, NoName),   \* no reference unit possible
   TDer("tA1", "A1", << <<"A", 1>> >>, "a1"),                \* same dimension as base type A
+  TDer("tMpA_dup", "MpA2", << <<"M", 1>>, <<"A", -1>> >>, "mpx"),  \* dimension of MpA again, explicit symbol, no ref unit derivable
+  TDer("tApB2", "ApB2", << <<"A", 1>>, <<"B", -2>> >>, "apb2"),
   UScaled("ka", "A", "ka", <<10, 1>>, "a"),
   UScaled("ha", "A", "ha", <<1, 2>>, "ka"),
   UScaled("ta", "A", "ta", <<1, 3>>, "a"),
@@ -95,6 +97,8 @@ AllItems == {
   UTerm("sq_dup", "A2", "a", << <<"ha", 1>>, <<"ka", 1>> >>),              \* valid definition, symbol already taken
   UDerive("ka2", "A2", "ka2", <<"ka">>),
   UDerive("kacb", "AB", "kacb", <<"ka", "cb">>),
+  UDerive("kapcb2", "ApB2", "kapcb2", <<"ka", "cb">>),      \* ka / cb^2 - must not be taken for ka / cb
+  UTerm("kk", "A2", "kk", << <<"ka", 1>>, <<"ka", 1>> >>),  \* same definition as ka2 (100 a^2): scale must not depend on the order
   UDerive("arity", "AB", "w1", <<"ka">>),                   \* wrong number of base units
   UDerive("wrongorder", "AB", "w2", <<"b", "ka">>),         \* units do not match the base types
   UDerive("onbase", "A", "w3", <<"a">>),                    \* derive on a base type
@@ -106,6 +110,7 @@ AllItems == {
   OMul("m_apb_b", "apb", "b"), OMul("m_ppa_a", "ppa", "a"), OMul("m_ppa_ka", "ppa", "ka"),
   OMul("m_qpa_a", "qpa", "a"), OMul("m_a_qpa", "a", "qpa"), ODiv("d_ppa_qpa", "ppa", "qpa"),
   OMul("m_p_a", "p", "a"),     OMul("m_p_q", "p", "q"),
+  ODiv("d_ka_cb", "ka", "cb"), ODiv("d_kk_ka", "kk", "ka"), ODiv("d_ka2_ka", "ka2", "ka"),
   ODiv("d_ka_b", "ka", "b"),   ODiv("d_a2_ka", "a2", "ka"), ODiv("d_ka_ha", "ka", "ha"),
   ODiv("d_ka_ka", "ka", "ka"), ODiv("d_p_a", "p", "a"),     ODiv("d_p_ka", "p", "ka"),
   ODiv("d_p_q", "p", "q"),     ODiv("d_p_p", "p", "p"),     ODiv("d_kab_b", "kab", "b"),
@@ -222,17 +227,21 @@ DeclBase(i) ==
 (* ("GEN": the harness learns the actual text from the library; the spec    *)
 (* names it gen:<type name>)                                                *)
 RefSym(i) == IF i.ref = "GEN" THEN "gen:" \o i.name ELSE i.ref
+\* A derived type gets a reference unit when a symbol is given explicitly (if its components lack reference
+\* units that unit has no definition - it is a base unit of its own) or when one can be generated from the
+\* components' reference units.
 DeclDerived(i) ==
     /\ i.act = "derived" /\ DefTypesKnown(i.def) /\ ~HasType(i.name)
-    /\ IF (\E t \in TypeRecs : t.dim = DefDim(i.def, 1))                \* dimension taken
-               \/ (DefAllRef(i.def) /\ i.ref # NoName /\ HasUnit(RefSym(i))) \* symbol taken
+    /\ LET withref == IF i.ref = "GEN" THEN DefAllRef(i.def) ELSE i.ref # NoName IN
+       IF (\E t \in TypeRecs : t.dim = DefDim(i.def, 1))                \* dimension taken
+               \/ (withref /\ HasUnit(RefSym(i)))                        \* symbol taken
             THEN Reject(i)
-       ELSE LET withref == DefAllRef(i.def) /\ i.ref # NoName IN
-            /\ types' = Append(types, [name |-> i.name, ref |-> IF withref THEN RefSym(i) ELSE NoName, q |-> NoRat,
+       ELSE /\ types' = Append(types, [name |-> i.name, ref |-> IF withref THEN RefSym(i) ELSE NoName, q |-> NoRat,
                                        dim |-> DefDim(i.def, 1)])
-            /\ units' = IF withref
+            /\ units' = IF ~withref THEN units
+                        ELSE IF DefAllRef(i.def)
                         THEN Append(units, NewUnit(RefSym(i), i.name, ROne, RefVec(i.def, 1), FALSE))
-                        ELSE units
+                        ELSE Append(units, NewUnit(RefSym(i), i.name, ROne, UnitVec(RefSym(i)), TRUE))
             /\ cache' = cache /\ Accept(i)
 
 AddUnit(i, num, vec, base) ==
